@@ -1,3 +1,221 @@
-From PV Require Import Args.WcollFile.
-Theorem C10_placeholder : True. Proof. exact I. Qed.
-Print Assumptions C10_placeholder.
+(* C10 - the target list is assembled faithfully from every source.
+   Statements only; proofs in Args/WcollFacts.v.  Model: Args/WcollFile.v (wcoll.c), Args/Assemble.v (opt.c);
+   specification: Args/WcollSpec.v.  For every finite file system (a map from path strings to contents), every
+   line length, every include graph (nested, diamond, cyclic), every list of -w arguments in any order, every
+   standard input and every value of WCOLL.
+
+   Domain D10 (Args/WcollSpec.v): text files (no NUL byte); a line that starts with "#include" is shorter than
+   4095 bytes (the 4096-byte path buffer of wcoll.c; host lines may have ANY length); readable paths are shorter
+   than PATH_MAX = 4096.  knows_self: a readable file is also readable under dirname/basename of its name. *)
+From PV Require Import Args.WcollSpec Args.WcollFacts.
+Local Open Scope N_scope.
+
+(* ---------- (a) model = specification ---------- *)
+(* a file named on the command line: the reader computes an outcome (never Fault, never out of fuel), and it is
+   the outcome the specification gives; the specification gives only one *)
+Theorem C10_assemble_file : forall fs file, D10 fs = true -> knows_self fs file ->
+  exists o, read_wcoll fs file = embed o /\ file_hosts fs (dirname file) (self_of file) file o.
+Proof. exact read_wcoll_spec. Qed.
+Print Assumptions C10_assemble_file.
+
+Theorem C10_assemble_stdin : forall fs content, D10 fs = true -> text_okb content = true ->
+  exists o, read_stream fs content = embed o /\ stream_hosts fs content o.
+Proof. exact read_stream_spec. Qed.
+Print Assumptions C10_assemble_stdin.
+
+Theorem C10_file_spec_deterministic : forall fs dir ls seen o1, reads fs dir ls seen o1 ->
+  forall o2, reads fs dir ls seen o2 -> o1 = o2.
+Proof. exact reads_fun. Qed.
+Print Assumptions C10_file_spec_deterministic.
+
+(* the whole command line: -w arguments in order, standard input, WCOLL *)
+Theorem C10_assemble : forall fs, D10 fs = true -> (forall p, knows_self fs p) ->
+  forall stdin wcoll args, text_okb stdin = true ->
+  match assemble (mkaw fs stdin wcoll) args with
+  | AOk es w => target_list fs dirname self_of stdin wcoll args (Some (es, w))
+  | AError => target_list fs dirname self_of stdin wcoll args None
+  | AFault | ADiverges => False
+  | AOutOfScope => exists w, In w (flat_map words_of args) /\ source_of w = SOther
+  end.
+Proof. exact assemble_spec. Qed.
+Print Assumptions C10_assemble.
+
+Theorem C10_spec_deterministic : forall fs d s stdin wcoll args r1 r2,
+  target_list fs d s stdin wcoll args r1 -> target_list fs d s stdin wcoll args r2 -> r1 = r2.
+Proof. exact target_list_fun. Qed.
+Print Assumptions C10_spec_deterministic.
+
+(* the words of a -w argument: list_split cuts exactly at the commas outside brackets *)
+Theorem C10_words : forall a, arg_words a = words_of a.
+Proof. exact arg_words_spec. Qed.
+Print Assumptions C10_words.
+
+(* ---------- (b) the include recursion always ends ---------- *)
+(* fuel sufficiency: every nested read enters a readable path that was not in the cache, so fuel >= the number of
+   readable paths not yet cached is enough; read_wcoll starts with length fs + 1 *)
+Theorem C10_fuel_sufficient : forall fs dir fuel bufs cache,
+  (avail fs cache <= fuel)%nat -> read_lines fs dir fuel bufs cache <> RDiverges.
+Proof. exact read_lines_terminates. Qed.
+Print Assumptions C10_fuel_sufficient.
+
+Theorem C10_fuel_irrelevant : forall fs dir f f' bufs cache, (f <= f')%nat ->
+  read_lines fs dir f bufs cache <> RDiverges -> read_lines fs dir f' bufs cache = read_lines fs dir f bufs cache.
+Proof. exact fuel_stable. Qed.
+Print Assumptions C10_fuel_irrelevant.
+
+(* no file system, no include graph (cyclic or not), no line length makes the reader run out of fuel *)
+Theorem C10_includes_terminate : forall fs file, read_wcoll fs file <> RDiverges.
+Proof. exact read_wcoll_terminates. Qed.
+Print Assumptions C10_includes_terminate.
+
+Theorem C10_includes_terminate_stdin : forall fs content, read_stream fs content <> RDiverges.
+Proof. exact read_stream_terminates. Qed.
+Print Assumptions C10_includes_terminate_stdin.
+
+Theorem C10_assemble_terminates : forall W args, assemble W args <> ADiverges.
+Proof. exact assemble_terminates. Qed.
+Print Assumptions C10_assemble_terminates.
+
+(* ---------- (c) lines of any length are read whole ---------- *)
+(* every getline buffer holds exactly one line of the text (with or without its newline) *)
+Theorem C10_lines_read_whole : forall c, Forall2 bufline (file_lines c) (text_lines c).
+Proof. exact file_lines_text_lines. Qed.
+Print Assumptions C10_lines_read_whole.
+
+(* every expression handed to the host-list parser is the entry (comment removed, blanks trimmed) of ONE whole
+   line - a maximal newline-free stretch - of one readable file: no name is split or truncated *)
+Theorem C10_no_split_file : forall fs file es cache w,
+  D10 fs = true -> knows_self fs file -> read_wcoll fs file = ROk es cache w ->
+  forall e, In e es -> exists p c l, lookup fs p = Some c /\ whole_line l c /\ e = entry l /\ e <> [].
+Proof. exact read_wcoll_whole_lines. Qed.
+Print Assumptions C10_no_split_file.
+
+Theorem C10_no_split : forall fs stdin wcoll args es wn,
+  D10 fs = true -> (forall p, knows_self fs p) -> text_okb stdin = true ->
+  assemble (mkaw fs stdin wcoll) args = AOk es wn ->
+  forall e, In e es ->
+    (exists w, In w (flat_map words_of args) /\ source_of w = SHosts e) \/
+    (exists l c, e = entry l /\ e <> [] /\ whole_line l c /\ (c = stdin \/ exists p, lookup fs p = Some c)).
+Proof. exact assemble_whole_lines. Qed.
+Print Assumptions C10_no_split.
+
+(* ---------- (d) a file reached a second time is skipped with a warning ---------- *)
+Theorem C10_second_visit_skipped : forall fs dir fuel b bs cache p,
+  line_action fs dir b = LInclude p -> In p cache ->
+  read_lines fs dir fuel (b :: bs) cache = then_result (ROk [] cache 1) (read_lines fs dir fuel bs).
+Proof. exact second_visit. Qed.
+Print Assumptions C10_second_visit_skipped.
+
+(* the cache is the file named on the command line and every file opened since: no file is opened twice *)
+Theorem C10_no_file_read_twice : forall fs file es cache w, read_wcoll fs file = ROk es cache w -> NoDup cache.
+Proof. exact read_wcoll_nodup. Qed.
+Print Assumptions C10_no_file_read_twice.
+
+(* ---------- (e) order, errors, WCOLL ---------- *)
+(* words are handled from left to right; each one appends to what the earlier ones gave *)
+Theorem C10_order : forall fs st a b,
+  run_words fs st (a ++ b) = match run_words fs st a with WOk st1 => run_words fs st1 b | e => e end.
+Proof. exact run_words_app. Qed.
+Print Assumptions C10_order.
+
+Theorem C10_order_appends : forall fs ws st st', run_words fs st ws = WOk st' -> extends (as_list st) (as_list st').
+Proof. exact run_words_extends. Qed.
+Print Assumptions C10_order_appends.
+
+(* lines of a file likewise: a ++ b is a, then b with the cache a left *)
+Theorem C10_order_lines : forall fs dir fuel a b cache,
+  read_lines fs dir fuel (a ++ b) cache = then_result (read_lines fs dir fuel a cache) (read_lines fs dir fuel b).
+Proof. exact read_lines_app. Qed.
+Print Assumptions C10_order_lines.
+
+(* an unreadable source is an error, never an empty list *)
+Theorem C10_unreadable_is_error : forall fs stdin wc args a w b st1 ex p,
+  flat_map arg_words args = a ++ w :: b -> run_words fs (mkast None stdin 0) a = WOk st1 ->
+  classify_word w = WcFile ex p -> beq p [45] = false -> lookup fs p = None ->
+  assemble (mkaw fs stdin wc) args = AError.
+Proof. exact unreadable_source. Qed.
+Print Assumptions C10_unreadable_is_error.
+
+Theorem C10_unreadable_include_is_error : forall fs dir fuel b bs cache p,
+  line_action fs dir b = LInclude p -> ~ In p cache -> lookup fs p = None ->
+  read_lines fs dir fuel (b :: bs) cache = RFatal.
+Proof. exact unreadable_include. Qed.
+Print Assumptions C10_unreadable_include_is_error.
+
+Theorem C10_unresolved_include_is_error : forall fs dir fuel b bs cache,
+  line_action fs dir b = LFatal -> read_lines fs dir fuel (b :: bs) cache = RFatal.
+Proof. exact unresolved_include. Qed.
+Print Assumptions C10_unresolved_include_is_error.
+
+Theorem C10_unreadable_wcoll_is_error : forall fs stdin v args st,
+  run_words fs (mkast None stdin 0) (flat_map arg_words args) = WOk st -> as_list st = None ->
+  beq v [45] = false -> lookup fs v = None ->
+  assemble (mkaw fs stdin (Some v)) args = AError.
+Proof. exact unreadable_wcoll. Qed.
+Print Assumptions C10_unreadable_wcoll_is_error.
+
+(* WCOLL is used exactly when no word named a target *)
+Theorem C10_wcoll_fallback : forall fs stdin v args st,
+  existsb names_targets (flat_map arg_words args) = false ->
+  run_words fs (mkast None stdin 0) (flat_map arg_words args) = WOk st ->
+  assemble (mkaw fs stdin (Some v)) args =
+  match fst (read_source fs (as_stdin st) v) with
+  | ROk es _ wn => AOk es (as_warn st + wn)
+  | RFatal => AError | RFault => AFault | RDiverges => ADiverges
+  end.
+Proof. exact wcoll_used. Qed.
+Print Assumptions C10_wcoll_fallback.
+
+Theorem C10_wcoll_ignored_when_given : forall fs stdin wc args,
+  existsb names_targets (flat_map arg_words args) = true ->
+  assemble (mkaw fs stdin wc) args = assemble (mkaw fs stdin None) args.
+Proof. exact wcoll_ignored. Qed.
+Print Assumptions C10_wcoll_ignored_when_given.
+
+(* ---------- non-vacuity ---------- *)
+(* a diamond (A -> B -> D, A -> C -> D) and a cycle (C -> A) below d/:
+     d/A: a1 / #include B / #include C / " a2 # last"     d/B: b1 / #include D
+     d/C: #include D / c1 / #include A                     d/D: "d[1-2] # two"
+   D is read once, the way back to A is cut, both with a warning; order is that of the text *)
+Definition ex_fs : fsys :=
+  [([100;47;65], [97;49;10;35;105;110;99;108;117;100;101;32;66;10;35;105;110;99;108;117;100;101;32;67;10;32;97;50;32;35;32;108;97;115;116;10]);
+   ([100;47;66], [98;49;10;35;105;110;99;108;117;100;101;32;68;10]);
+   ([100;47;67], [35;105;110;99;108;117;100;101;32;68;10;99;49;10;35;105;110;99;108;117;100;101;32;65;10]);
+   ([100;47;68], [100;91;49;45;50;93;32;35;32;116;119;111;10])].
+Example C10_diamond_cycle_nonvacuous :
+  D10 ex_fs = true /\ knows_self ex_fs [100;47;65] /\
+  read_wcoll ex_fs [100;47;65] =
+    ROk [[97;49]; [98;49]; [100;91;49;45;50;93]; [99;49]; [97;50]]
+        [[100;47;67]; [100;47;68]; [100;47;66]; [100;47;65]] 2.
+Proof. split; [vm_compute; reflexivity|]. split; [intros _; vm_compute; discriminate|vm_compute; reflexivity]. Qed.
+
+(* a 5000-byte line is one expression (D10 puts no bound on host lines) *)
+Example C10_long_line_nonvacuous :
+  let fs := [([76], repeat 97 5000 ++ [10])] in
+  D10 fs = true /\ read_wcoll fs [76] = ROk [repeat 97 5000] [[46;47;76]] 0.
+Proof. split; vm_compute; reflexivity. Qed.
+
+(* the directory of the file is one directory, whatever its name: a:b/hosts includes a:b/G, not a/G *)
+Definition ex_colon : fsys :=
+  [([97;58;98;47;104;111;115;116;115], [116;111;112;49;10;35;105;110;99;108;117;100;101;32;71;10]);
+   ([97;58;98;47;71], [105;110;103;10]);
+   ([97;47;71], [119;114;111;110;103;65;10])].
+Example C10_colon_directory_nonvacuous :
+  read_wcoll ex_colon [97;58;98;47;104;111;115;116;115] = ROk [[116;111;112;49]; [105;110;103]] [[97;58;98;47;71]; [97;58;98;47;104;111;115;116;115]] 0.
+Proof. vm_compute; reflexivity. Qed.
+
+(* a command line: pdsh -w x1,^F -w - -w x[2,3]  with "s1 / #include W" on standard input and WCOLL=W (ignored);
+   F and G include each other.  Then: only an exclusion given, so WCOLL is used; then: a missing file *)
+Definition ex_cmd : fsys :=
+  [([70], [102;49;10;35;105;110;99;108;117;100;101;32;71;10;102;50;10]);
+   ([46;47;71], [103;49;10;35;105;110;99;108;117;100;101;32;70;10]);
+   ([46;47;70], [102;49;10;35;105;110;99;108;117;100;101;32;71;10;102;50;10]);
+   ([87], [119;49;10]);
+   ([46;47;87], [119;49;10])].
+Example C10_command_line_nonvacuous :
+  D10 ex_cmd = true /\
+  assemble (mkaw ex_cmd [115;49;10;35;105;110;99;108;117;100;101;32;87;10] (Some [87])) [[120;49;44;94;70]; [45]; [120;91;50;44;51;93]] =
+    AOk [[120;49]; [102;49]; [103;49]; [102;50]; [115;49]; [119;49]; [120;91;50;44;51;93]] 1 /\
+  assemble (mkaw ex_cmd [] (Some [87])) [[45;122;122]] = AOk [[119;49]] 0 /\
+  assemble (mkaw ex_cmd [] (Some [87])) [[120;49]; [94;110;111;115;117;99;104]] = AError.
+Proof. split; [vm_compute; reflexivity|]. split; [vm_compute; reflexivity|]. split; vm_compute; reflexivity. Qed.
